@@ -424,8 +424,8 @@ def c14(ctx):
 
 
 def c15(ctx):
-    return [Native("pae", "c15"),
-            Miri("miri-pae", "c15", ["--scale", "0.004"], shards=8, prop="C15", note="PAE workload under Miri")]
+    return [SelfTest(), Native("pae", "c15"),
+            Miri("miri-pae", "c15", ["--scale", "0.004", "--part", "encoder"], shards=8, prop="C15", note="PAE encoder workload under Miri")]
 
 
 def c16(ctx):
